@@ -80,8 +80,9 @@ print(json.dumps(out, indent=1))
 if out.get("tests_still_pass") and out.get("demo_confirms"):
     dst = Path("/verif/seeded") / seed_id
     dst.mkdir(parents=True, exist_ok=True)
-    shutil.copy2(src_dir / "patch.diff", dst / "patch.diff")
-    shutil.copy2(src_dir / "demo.py", dst / "demo.py")
+    if src_dir.resolve() != dst.resolve():          # re-validation of a kept seed: the files are already in place
+        shutil.copy2(src_dir / "patch.diff", dst / "patch.diff")
+        shutil.copy2(src_dir / "demo.py", dst / "demo.py")
     meta["confirmed"] = {k: out[k] for k in ("tests_with_patch", "demo_with_patch", "demo_without_patch")}
     meta["what_was_run"] = ("scratch worktree of /repo HEAD, patch applied there; pytest tests; demo.py with and without patch; "
                             "check.py <prop> --tier quick with VERIF_REPO_SRC=<worktree>/src")
